@@ -115,12 +115,12 @@ PROPERTIES = {
         "explanation": "R-SENTINEL on offset_labels, R-COPERMUTE, R-PAIRS, R-CODEWIDTH (per-slice offsets are added to intp codes)",
     },
     "C10": {
-        "rules": [M.rule_scantable, rule_stable, M.rule_promote, rule_pure],
+        "rules": [M.rule_scantable, rule_stable, M.rule_promote, rule_pure, M.rule_kindmissing],
         "thorough": [selftest, seeded_regression],
         "technique": "registry constant-evaluation + scan table; stable-sort sites",
         "level_text": "Static: the three scan blueprints are consistent (operator identity, carried reduction, in-block scan), bfill is the "
                       "mirror image of ffill, and the group sort feeding ffill is stable. Scan values across chunkings are not decided.",
-        "explanation": "R-SCANTABLE, R-STABLE, R-PROMOTE, R-PURE (the scan combine is a node of a parallel-prefix tree: it may not write into an operand another node reads)",
+        "explanation": "R-SCANTABLE, R-STABLE, R-PROMOTE, R-PURE (the scan combine is a node of a parallel-prefix tree: it may not write into an operand another node reads), R-KINDMISSING (the 'no missing values' shortcut of fill scans fires only for kinds without a missing value)",
     },
     "C11": {
         "rules": [M.rule_dtypetable, M.rule_finalcast, M.rule_promote, PR.rule_pairs_outinds, M.rule_reindexdtype, M.rule_subsumed, M.rule_accdtype, M.rule_finaldeps],
